@@ -131,10 +131,12 @@ func NewWriter(filename string) (*Writer, error) {
 	}
 	if err := w.write(&w.header); err != nil {
 		w.Close()
+		os.Remove(filename)
 		return nil, err
 	}
 	if err := w.setSectionBegin(sectionData); err != nil {
 		w.Close()
+		os.Remove(filename)
 		return nil, err
 	}
 	return &w, nil
